@@ -405,12 +405,19 @@ def name_cases(draw):
     other = draw(st.sampled_from(flat))
     form = draw(st.sampled_from(["rule", "rule", "layer"]))
     if form == "rule":
-        slot = draw(st.sampled_from(["subject", "object", "subject-batch", "object-batch", "subject-regex", "object-regex"]))
+        slot = draw(st.sampled_from(["subject", "object", "subject-batch", "object-batch", "subject-regex", "object-regex",
+                                     "subject-partial-batch", "object-partial-batch"]))
         kind = draw(st.sampled_from(["named", "sub"]))
         v, d, e = draw(st.sampled_from(RS.SHAPES))
         anything = slot.startswith("subject") and draw(st.integers(0, 3)) == 0
         if slot.endswith("regex"):
             bad_side = {"kind": "regex", "names": [re.escape(absent) + "$"]}
+        elif slot.endswith("partial-batch"):
+            # several partial names in one call; exactly one of them matches nothing (its position varies)
+            good = [draw(st.sampled_from([e, e + "*", "*" + e.rsplit(".", 1)[-1]])) for e in existing]
+            names = draw(st.permutations(good + [absent]))
+            bad_side = {"kind": "partial", "names": list(names), "as_str": False}
+            anything = False
         elif slot.endswith("batch"):
             names = draw(st.permutations(existing + [absent]))
             bad_side = {"kind": kind, "names": list(names), "as_str": False}
@@ -425,7 +432,8 @@ def name_cases(draw):
         return {"tree": tree, "imports": [list(x) for x in imports], "level_limit": limit, "absent": absent, "why": why,
                 "form": "rule", "slot": slot + ("+anything" if anything else ""), "rule": rule}
     # layer rule: the absent name (or a regex matching nothing) defines a layer that the rule mentions
-    slot = draw(st.sampled_from(["subject-layer", "object-layer", "subject-layer-regex", "object-layer-regex", "undefined-layer"]))
+    slot = draw(st.sampled_from(["subject-layer", "object-layer", "subject-layer-regex", "object-layer-regex", "undefined-layer",
+                                 "object-layers-regex-batch"]))
     units = []
     for n in draw(st.permutations(flat)):
         if n != flat[0] and all(not M.related(n, u) for u in units):
@@ -438,7 +446,16 @@ def name_cases(draw):
     layers = [{"name": "LG", "kind": "names", "modules": good1, "as_str": False}, bad_def]
     v, d, e = draw(st.sampled_from(RS.SHAPES))
     dd = "access" if d == "import" else "accessed"
-    if slot == "undefined-layer":
+    if slot == "object-layers-regex-batch":
+        # two regex-defined object layers, one matching modules and one matching nothing, in either order
+        lr = {"name": "LR", "kind": "regex", "regex": re.escape(good2[0]) + "$", "modules": good2[:1]}
+        lb = {"name": "LB", "kind": "regex", "regex": re.escape(absent) + "$", "modules": []}
+        if good2[0] == good1[0]:
+            lr = None
+        layers = [layers[0]] + ([lr] if lr else []) + [lb]
+        objs = draw(st.permutations([l["name"] for l in layers[1:]]))
+        rule = {"verb": v, "dir": dd, "exc": e, "anything": False, "subj": "LG", "obj": list(objs), "obj_as_str": False}
+    elif slot == "undefined-layer":
         layers = layers[:1] + [{"name": "LB", "kind": "names", "modules": good2 if good2 != good1 else [flat[0]], "as_str": False}]
         if layers[1]["modules"] == layers[0]["modules"]:
             layers = layers[:1]
